@@ -354,6 +354,10 @@ func (r *yieldRewriter) rewriteYieldCall(
 	// bind(v, func() { kindDelay })
 	following := mkBlock(kindDelay /*callback func lit body*/)
 	v := call.Args[0]
+	if idx, ok := call.Fun.(*ast.IndexExpr); ok {
+		// Yield[V](x): the type argument converts x (an untyped constant, nil)
+		v = X.Call(&ast.ParenExpr{X: idx.Index}, v)
+	}
 	callBind := r.CallBind(v, following.block)
 	children.pushReturn(callBind, kindYield)
 	return following
